@@ -2,6 +2,7 @@
 # Runs every claimed check (quick tier) on every seeded change, 14 jobs in parallel, each on its own scratch copy of /repo/curtsies
 # and with its own copy of /verif's checker writing evidence into a scratch dir; prints a matrix and writes seeded/MATRIX.md.
 set -u
+export VERIF_NPROC=${VERIF_NPROC:-2}   # the matrix already runs 14 jobs side by side
 cd /verif
 IDS=$(/venv/bin/python -c "import json;print(' '.join(c['property_id'] for c in json.load(open('MANIFEST.json'))['checks']))")
 OUT=$(mktemp -d /tmp/seedmatrix.XXXXXX)
